@@ -54,6 +54,10 @@ def plan(tier, seed):
                       'file_index': rnd.randrange(len(files)), 'nmut': rnd.choice([0, 1, 1, 2]),
                       'npos': 4, 'whole': False, 'rounds': 40 if tier == 'quick' else 200,
                       'seed': '%s/C16/r%d' % (seed, i)})
+    for i in range(n_rep // 5):
+        specs.append({'id': 'c16x-%d' % i, 'mode': 'repeat', 'kind': 'file', 'exhaust': True,
+                      'npos': 4, 'rounds': 30 if tier == 'quick' else 120,
+                      'seed': '%s/C16/x%d' % (seed, i)})
     specs.append({'id': 'c16w-import-dup', 'mode': 'proc', 'kind': 'file', 'seed': 'w',
                   'text': WITNESS_TEXT, 'positions': [[1, 27], [1, 22]], 'npos': 2,
                   'methods': ['complete'], 'hashseeds': [str(x) for x in range(8)]})
@@ -187,9 +191,45 @@ def check_invariants(rec, script, w):
         rec.violate('c16:state_not_restored:' + b.split(' ')[0], b, **w)
 
 
+def exhaust_text(rnd):
+    """A program in which single queries execute the same user functions many times (so that
+    jedi's per-query execution budgets are used up) and other queries need those functions again."""
+    n = rnd.randint(2, 4)
+    L = []
+    for i in range(n):
+        L += ['def ident%d(x):' % i, '    return x', '']
+        L += ['def helper%d(alpha%d, beta%d=%d):' % (i, i, i, i), '    """doc %d"""' % i,
+              '    return [alpha%d]' % i, '']
+    L += ['class Box:', '    def __init__(self, v):', '        self.v = v', '    def get(self):',
+          '        return self.v', '']
+    pos = []
+    for i in range(n):
+        k = rnd.randint(6, 9)
+        L.append('total%d = %s' % (i, ' + '.join('ident%d(%d)' % (i, j) for j in range(k))))
+        pos.append((len(L), 3))
+        L.append('boxes%d = [%s]' % (i, ', '.join('Box(ident%d(%d)).get()' % (i, j) for j in range(k))))
+        pos.append((len(L), 3))
+    for i in range(n):
+        L.append('ident%d(helper%d)(' % (i, i))
+        pos.append((len(L), len(L[-1])))
+        L.append('ident%d(helper%d)(1)[0].' % (i, i))
+        pos.append((len(L), len(L[-1])))
+        L.append('r%d = ident%d(Box(helper%d)).get()' % (i, i, i))
+        pos.append((len(L), 1))
+        L.append('r%d(' % i)
+        pos.append((len(L), len(L[-1])))
+    return '\n'.join(L) + '\n', pos
+
+
 def run_repeat(spec):
     from vf.driver import digest
-    text, near, rnd = c01.build_text(spec)
+    if spec.get('exhaust'):
+        rnd = random.Random(spec['seed'])
+        text, fixed_pos = exhaust_text(rnd)
+        near = None
+    else:
+        text, near, rnd = c01.build_text(spec)
+        fixed_pos = None
     rec = apimon.Recorder()
     run_dir = os.environ.get('VERIF_RUN_DIR', '/var/tmp')
     case_dir = os.path.join(run_dir, 'c16-' + spec['id'])
@@ -203,15 +243,50 @@ def run_repeat(spec):
     if not ok:
         res['inconclusive'] = ['Script() raised (C01)']
         return res
-    pos = mutate.positions(text, rnd, spec['npos'], near=near)
+    pos = fixed_pos or mutate.positions(text, rnd, spec['npos'], near=near)
     pool = [(m, l, c) for (l, c) in pos for m in METHODS + ['get_names', 'rename']]
     rnd.shuffle(pool)
     pool = pool[:8]
+    exhausting = dependent = None
+    if fixed_pos:
+        # directed: every budget-exhausting query is followed by every query that needs the
+        # same functions executed again
+        tl = text.split('\n')
+        exhausting, dependent = [], []
+        for (l, c) in fixed_pos:
+            lt = tl[l - 1]
+            if lt.startswith(('total', 'boxes')):
+                exhausting += [('infer', l, c), ('help', l, c)]
+            elif lt.endswith('('):
+                dependent += [('get_signatures', l, c)]
+            elif lt.endswith('.'):
+                dependent += [('complete', l, c)]
+            else:
+                dependent += [('infer', l, c), ('goto_follow', l, c)]
+        pool = exhausting + dependent
     bad_pos = mutate.outside_positions(text, rnd)
     failing = [(m, l, c) for (l, c) in bad_pos[:3] for m in ('complete', 'infer', 'rename')]
+    # The reference answer of every query comes from a Script that is asked nothing else (a new
+    # Script object on a path of its own holding the same text), so that an answer which is
+    # already bent by the queries asked before it on the main Script is noticed too.
     first = {}
     nonempty = 0
+    for qi, q in enumerate(pool):
+        fdir = os.path.join(case_dir, 'fresh%d' % qi)
+        os.makedirs(fdir, exist_ok=True)
+        fs = jedi.Script(text, path=os.path.join(fdir, 'buf.py'))
+        ans = norm.run_query(fs, q[0], q[1], q[2], [('<case>', fdir)])
+        fs = None
+        first[q] = norm.canon(q[0], ans.get('ok')) if 'ok' in ans else json.dumps(ans)
+        if ans.get('ok'):
+            nonempty += 1
+        rec.ev('c16:fresh_script_references')
     seq = list(pool)
+    if exhausting:
+        seq = []
+        for a in exhausting:
+            seq.append(a)
+            seq += dependent
     for _ in range(spec['rounds']):
         seq.append(rnd.choice(pool) if rnd.random() < 0.75 else rnd.choice(failing))
     for q in seq:
@@ -221,15 +296,10 @@ def run_repeat(spec):
             rec.ev('c16:failing_queries_interleaved')
             continue
         key = norm.canon(q[0], ans.get('ok')) if 'ok' in ans else json.dumps(ans)
-        if q not in first:
-            first[q] = key
-            if ans.get('ok'):
-                nonempty += 1
-            continue
         rec.ev('c16:repeat_comparisons')
         if key != first[q]:
-            rec.violate('c16:repeat:' + q[0], 'query %s at %s:%s answered differently when asked '
-                        'again on the same Script' % q, first=str(first[q])[:600],
+            rec.violate('c16:repeat:' + q[0], 'query %s at %s:%s answered differently after other queries on '
+                        'the same Script than on a Script asked nothing else' % q, first=str(first[q])[:600],
                         now=str(key)[:600], text=text[:6000], **w)
     res['violations'] = rec.violations
     res['nontrivial'] = nonempty >= 2 and rec.events.get('c16:repeat_comparisons', 0) >= 10
